@@ -43,7 +43,7 @@ def one(name):
   finally:
     shutil.rmtree(tmp, ignore_errors=True)
 
-with ThreadPoolExecutor(max_workers=8) as ex:
+with ThreadPoolExecutor(max_workers=int(os.environ.get("VERIF_JOBS", "8"))) as ex:
   rows = list(ex.map(one, names))
 for r in rows:
   print("%-55s %-10s %s" % (r[0], r[1], "; ".join("%s:%s" % (k, ",".join(v)) for k, v in r[2].items())))
